@@ -341,7 +341,11 @@ def gen_case(rng, flavour):
                 lines += [sop[f] for f in allf if f in sub]
             shuffled = list(sub)
             rng.shuffle(shuffled)
-            lines.append(f"xcli metagenome {r} {','.join(shuffled)}")
+            variant = rng.choice(["", "", " fromfile", " dupg", " forcebad"] + ([" stdout"] if sub == ["csv_summary"] and nqueries == 1 else []))
+            lines.append(f"xcli metagenome {r} {','.join(shuffled)}{variant}")
+        if nqueries == 1:
+            # the default output (stdout, fractions cut to 3 decimals)
+            lines += ["sopen", "scsv", f"xcli metagenome {r} csv_summary stdout"]
         if nqueries == 1:
             # `tax genome` with several formats on the one classified object; the classification file must be the
             # in-process classification
@@ -353,6 +357,22 @@ def gen_case(rng, flavour):
             rng.shuffle(gf)
             lines.append(f"cls {gr} {p} {q}")
             lines.append(f"xcli genome {gr} {p} {q} {','.join(gf)}")
+    # other routes to the same taxonomy: `tax annotate` output used as -t, the sqlite taxonomy; lingroup reports
+    if kf == 0 and kv == 0 and fail == 0 and rng.random() < 0.25:
+        lines.append("xannot")
+    if mode == "std" and rng.random() < 0.25:
+        lines.append("xsqltax")
+    if mode == "lin" and tax and rng.random() < 0.6:
+        pf = set()
+        for _, cells in tax:
+            parts_ = cells[0].split(";")
+            pf.add(";".join(parts_[:rng.randint(1, len(parts_))]))
+        pf = sorted(pf)
+        rng.shuffle(pf)
+        pf = pf[:rng.randint(1, 4)] + (["9;9"] if rng.random() < 0.3 else [])
+        lines.append("xlingroup " + ",".join(enc(x) for x in pf))
+        p3, q3 = rng.choice(thr_pool)
+        lines.append(f"xclslg {','.join(enc(x) for x in (pf if rng.random() < 0.7 else ['9;9']))} {p3} {q3}")
     # older / foreign gather CSVs: an essential column missing (clean refusal), optional columns missing (same sums)
     if rng.random() < 0.12:
         e, t = rng.choice([(0, 1), (0, 1), (1, 0), (2, 0), (3, 1), (4, 0)])
@@ -373,6 +393,19 @@ def gen_case(rng, flavour):
         lines += sorted(set(seq))
         lines.append("sopen")
         lines += ["s" + x for x in seq]
+    # ONE QueryTaxResult summarised / classified / written again and again (API route; the CLI builds once): every
+    # writer after a rebuild must print what it prints on a fresh object (restricted to the ranks the documented
+    # single_rank / force_resummarize semantics leave summarised)
+    if rng.random() < 0.6:
+        r2 = rk()
+        p2, q2 = rng.choice(thr_pool)
+        wr = ["scsv", "scsv", f"shuman {r2}", f"skrona {r2}", f"slsum {r2}"] + (["skreport", "skreport", "sbioboxes"] if mode == "std" else [])
+        bl = ["sbuild - 0", "sbuild - 0", "sbuild - 0", "sbuild - 1", f"sbuild {r2} 0", f"sbuild {r2} 1",
+              f"scls - {p2} {q2} 0", f"scls {r2} {p2} {q2} 0", f"scls - {p2} {q2} 1", f"scls {rk()} {p2} {q2} 0"]
+        lines += sorted({x[1:] for x in wr})
+        lines.append(rng.choice(["snew", "snew", "sopen"]))
+        for _ in range(rng.randint(3, 9)):
+            lines.append(rng.choice(bl) if rng.random() < 0.5 else rng.choice(wr))
     # order independence: permuted gather rows
     if nrows > 1:
         idx = list(range(nrows))
@@ -390,6 +423,7 @@ def gen_case(rng, flavour):
         b = rng.choice([3, 7, 9, 10, 1000, 12345, 10 ** 9, 2 ** 40 + 1])
         d = rng.choice([3, 9, 10, 13, 77777, 10 ** 12])
         lines.append(f"{op} {rng.randint(0, b)} {b} {rng.randint(0, d)} {d}")
+    lines.append("xrecheck")
     if rng.random() < 0.3:
         s = rng.choice(["GCF_000001.1 E coli", "GCF_1", "a.b.c d.e", " lead", ".x y", "", "a  b", "GCA_9.10.11"])
         lines.append(f"ident {rng.randrange(2)} {rng.randrange(2)} {enc(s)}")
@@ -711,6 +745,8 @@ def _oracle(case, impl):
     last_cls = {}
     layout = None
     drop_ess = drop_totw = False
+    eff = None          # the shared object's summarized ranks per the documented semantics: None | "all" | rank
+    built = None        # the ranks its result lists hold: None (empty) | "all" | rank
     for idx, (l, o) in enumerate(zip(case, impl)):
         w = l.split()
         if not w:
@@ -723,12 +759,93 @@ def _oracle(case, impl):
             fresh[l.strip()] = o
         if op == "cls" and len(w) == 4:
             last_cls[(w[1], w[2], w[3])] = o
+        if op in ("sopen", "snew", "sbuild", "scls") and not drop_ess:
+            rows_s, nr_s = spec_rows(P, order)
+            if rows_s is None or not spec_taxonomy(P)[0] or (P.fail and any(lin is None for _, _, lin in rows_s)):
+                eff = built = None
+                sess_spec = False
+            else:
+                sess_spec = True
+                T_s = spec_table(P, rows_s, nr_s)
+                if op == "snew":
+                    eff = built = None
+                elif op == "sopen":
+                    eff = built = "all"
+                elif op == "sbuild" and len(w) == 3:
+                    single = None if w[1] == "-" else int(w[1])
+                    force = w[2] == "1"
+                    exp_err = None
+                    if eff is None or force:
+                        if single is None:
+                            eff = "all"
+                        elif single in T_s:
+                            eff = single
+                        else:
+                            eff, exp_err = None, "rank"
+                    elif single is not None and ((eff == "all" and single not in T_s) or (eff != "all" and eff != single)):
+                        exp_err = "rank"
+                    built = None if exp_err else eff
+                    if exp_err and not o.startswith("err ValueError:" + exp_err):
+                        bad.append((idx, "C19:rebuild:error-expected", f"`{l}`: expected a {exp_err} error, got {o[:80]}"))
+                    elif not exp_err and o != "ok":
+                        bad.append((idx, "C19:never_rejected:rebuild", f"`{l}` (another build_summarized_result on the same object) failed: {o[:100]}"))
+                elif op == "scls" and len(w) == 5:
+                    rank = None if w[1] == "-" else int(w[1])
+                    thr = None if w[2] == "none" else Fraction(int(w[2]), int(w[3]))
+                    force = w[4] == "1"
+                    if thr is not None and not 0 <= thr <= 1:
+                        if o != "err ValueError:thr":
+                            bad.append((idx, "C19:classification:threshold-range", f"threshold {thr} accepted: {o[:80]}"))
+                    else:
+                        exp_err = None
+                        if eff is None or force:
+                            if force and eff is not None:
+                                built = None
+                            if rank is None:
+                                eff = "all"
+                            elif rank in T_s:
+                                eff = rank
+                            else:
+                                eff, exp_err = None, "rank"
+                        elif rank is not None and ((eff == "all" and rank not in T_s) or (eff != "all" and eff != rank)):
+                            exp_err = "rank"
+                        if exp_err is None and eff == "all" and not T_s:
+                            exp_err = "noranks"
+                        if exp_err:
+                            if not o.startswith("err ValueError:" + exp_err):
+                                bad.append((idx, "C19:rebuild:error-expected", f"`{l}`: expected a {exp_err} error, got {o[:80]}"))
+                        else:
+                            exp = classify_spec(P, rows_s, nr_s, rank if eff == "all" else eff, thr)
+                            if not o.startswith("ok"):
+                                bad.append((idx, "C19:never_rejected:rebuild", f"`{l}` on an already used object failed: {o[:100]}"))
+                            elif exp is not None and not exp[4]:
+                                _, st_, r_, lin_, f_, fw_, bp_ = o.split()
+                                if st_ != exp[0] or int(r_) != exp[1] or dec(lin_) not in exp[2] or int(bp_) != exp[3] * P.q[2]:
+                                    bad.append((idx, "C19:rebuild-dependence:classification",
+                                                f"`{l}` on an already used object: {o[:120]}; a fresh object gives {exp[0]} at rank {exp[1]} ({sorted(exp[2])[:2]}, {exp[3] * P.q[2]} bp)"))
         if op == "sopen":
             sess_out.clear()
         if op in ("scsv", "skrona", "slsum", "shuman", "skreport", "sbioboxes", "mcsv", "mkrona", "mlsum") and o.startswith("ok"):
             sess_out[op[1:]] = o
         if op in ("scsv", "skrona", "slsum", "shuman", "skreport", "sbioboxes"):
             ref_o = fresh.get(l.strip()[1:])
+            if ref_o is not None and ref_o.startswith("ok") and not drop_ess:
+                # restrict the fresh output to the ranks the shared object holds (built) and still lists (eff)
+                def keep_rank(rk_):
+                    return (built == "all" or built == rk_) and (op not in ("scsv", "skrona", "slsum") or eff == "all" or eff == rk_)
+                toks = ref_o.split()[1:]
+                if built is None:
+                    toks = []
+                elif op == "scsv":
+                    toks = [t for t in toks if keep_rank(int(t.split("|")[0]))]
+                elif op in ("skrona", "slsum", "shuman"):
+                    toks = toks if keep_rank(int(w[1])) else []
+                elif built != "all":
+                    toks = None             # kreport / bioboxes of a single-rank object: model comparison only
+                if toks is not None:
+                    ref_o = "ok " + " ".join(toks) if toks else "ok"
+                else:
+                    ref_o = None
             if ref_o is not None and o != ref_o:
                 if o.startswith("ok") and sorted(o.split()) == sorted(ref_o.split()):
                     bad.append((idx, "C19:writer-order-dependence:row-order",
@@ -736,7 +853,7 @@ def _oracle(case, impl):
                                 f"fresh object (make_full_summary / make_human_summary sort the shared per-rank lists in place)"))
                 else:
                     bad.append((idx, f"C19:writer-order-dependence:{op[1:]}",
-                                f"`{l}` prints different rows after other writers ran on the same QueryTaxResult: "
+                                f"`{l}` prints different rows after other writers / builds ran on the same QueryTaxResult: "
                                 f"{len(o.split()) - 1} rows instead of {len(ref_o.split()) - 1}; fresh: {ref_o[:120]} ... shared: {o[:120]}"))
             continue
         if op == "perm":
@@ -745,6 +862,11 @@ def _oracle(case, impl):
             cur = order if order is not None else list(range(len(P.rows)))
             if len(idx_l) == len(cur):
                 order = [cur[i] for i in idx_l]
+            continue
+        if op == "xrecheck":
+            if not o.startswith("ok"):
+                bad.append((idx, "C19:history:earlier-result-changed",
+                            f"a result object an earlier call returned no longer says what it said (or its views disagree) after later calls: {o[:120]}"))
             continue
         if op == "mfiles":
             layout = [[] if f == "-" else [tuple(int(x) for x in t.split(".")) for t in f.split(",")] for f in w[1:]]
@@ -965,6 +1087,14 @@ def _oracle(case, impl):
         if rk_arg.isdigit() and int(rk_arg) not in Tx:
             continue            # a rank without any lineage was asked for
         if not o.startswith("ok"):
+            if op == "xclslg" and o.startswith("err AttributeError"):
+                bad.append((idx, "C19:never_rejected:genome-lingroup-none-applies",
+                            f"`{l}`: `tax genome --lingroup` dies with AttributeError ('NoneType' has no build_krona_result) when at no "
+                            "lingroup rank the best-supported lineage is one of the lingroups: build_classification_result leaves classif = None"))
+                continue
+            if op == "xclslg" and (o.startswith("err ValueError:noranks") or o.startswith("err ValueError:rank")
+                                   or o.startswith("err ValueError:nolingroup")):
+                continue
             if op == "xbioboxesw" and o.startswith("err TypeError"):
                 bad.append((idx, "C19:never_rejected:bioboxes-writer-none-taxid",
                             "writing the bioboxes format for a taxonomy without a `taxpath` column dies with TypeError "
@@ -982,6 +1112,57 @@ def _oracle(case, impl):
                 bad.append((idx, "C19:never_rejected:other", f"`{l[:60]}` failed on a valid gather result: {o[:100]}"))
             continue
         ref = api.get("sum")
+        if op in ("xannot", "xsqltax") and ref is not None and order is None:
+            toks = [t for t in o.split()[1:] if not t.startswith("rc=")]
+            if op == "xannot" and "rc=0" not in o.split():
+                bad.append((idx, "C19:never_rejected:annotate", f"`tax annotate` failed on valid input: {o[:100]}"))
+                continue
+            got_t = sorted(parse_entries("ok " + " ".join(toks)))
+            if got_t != sorted(ref):
+                holes = any(lin is None or any(x is None for x in lin) for _, _, lin in rows)
+                if op == "xannot" and holes:
+                    bad.append((idx, "C19:taxonomy-route:with-lineages-empty-name",
+                                "the with-lineages CSV written by `tax annotate`, used as the taxonomy, gives another summary than the taxonomy it came from: "
+                                "a missing rank (or a match without lineage) comes back as a FILLED rank with an empty name"))
+                else:
+                    bad.append((idx, f"C19:taxonomy-route:{'with-lineages' if op == 'xannot' else 'sqlite'}",
+                                f"`{l}`: the same taxonomy through another route gives another summary: {got_t[:2]} vs {sorted(ref)[:2]}"))
+            continue
+        if op == "xlingroup":
+            T = spec_table(P, rows, nr)
+            want = {}
+            for pfx in [dec(x) for x in (w[1].split(",") if w[1] != "-" else [])]:
+                r_ = len(pfx.split(";")) - 1
+                if r_ in T and pfx in T[r_]:
+                    want[pfx] = T[r_][pfx][1]
+            got = {}
+            for t in o.split()[1:]:
+                lin_, pct_, bp_ = t.split("|")
+                got[dec(lin_)] = (pct_, int(bp_))
+            for pfx, wsum_ in want.items():
+                if pfx not in got:
+                    bad.append((idx, "C19:lingroup:missing", f"lingroup {pfx!r} holds {wsum_}/{W} of the query but is not reported"))
+                else:
+                    pct_, bp_ = got[pfx]
+                    if abs(Fraction(pct_) - Fraction(100 * wsum_, W)) > Fraction(6, 1000) or bp_ not in (wsum_ * sc, wsum_ * sc - 1):
+                        bad.append((idx, "C19:lingroup:values", f"lingroup {pfx!r}: {pct_}% / {bp_} bp, the matches under it hold {wsum_}/{W} / {wsum_ * sc} bp"))
+            for pfx in got:
+                if pfx not in want:
+                    bad.append((idx, "C19:lingroup:extra", f"lingroup {pfx!r} reported but no match lies under it"))
+            continue
+        if op in ("human", "shuman") and o.startswith("ok"):
+            vals = [Fraction(t.split("|")[1]) for t in o.split()[1:]]
+            if any(vals[i] < vals[i + 1] for i in range(len(vals) - 1)):
+                bad.append((idx, "C19:human:order", f"`{l}`: the human summary is not in descending order of the weighted fraction it prints: {[float(v) for v in vals][:6]}"))
+        if op in ("bioboxes", "sbioboxes") and ref is not None and order is None and o.startswith("ok"):
+            byl = {(r_, lin_): fw_ for r_, lin_, f_, fw_, bp_ in ref}
+            for t in o.split()[1:]:
+                rn_, lin_, pct_ = t.split("|")
+                key = (STD.index(rn_), dec(lin_)) if rn_ in STD else None
+                if key in byl and pct_ != "%.2f" % (float(byl[key]) * 100):
+                    bad.append((idx, "C19:format_independent:bioboxes-percent",
+                                f"`{l}`: {dec(lin_)!r} printed {pct_}% but its weighted fraction is {float(byl[key])!r}"))
+                    break
         if op == "kreport" and ref is not None and order is None:
             T = spec_table(P, rows, nr)
             seen_un = False
@@ -1042,6 +1223,13 @@ def _oracle(case, impl):
                 if ref_c is not None and ref_c.startswith("ok ") and parts["cls"].split("|") != ref_c.split()[1:]:
                     bad.append((idx, "C19:format_independent:cli-classification",
                                 f"`{l}`: the classification file differs from the in-process classification: {parts['cls'][:100]} vs {ref_c[:100]}"))
+            if "csvlim" in parts and "csv" in sess_out:
+                exp_l = []
+                for t in sess_out["csv"].split()[1:]:
+                    r_, lin_, f_, fw_, bp_ = t.split("|")
+                    exp_l.append(f"{r_}|{lin_}|{float(parse_float(f_)):.3f}|{float(parse_float(fw_)):.3f}|{bp_}")
+                if [x for x in parts["csvlim"].split(",") if x] != exp_l:
+                    bad.append((idx, "C19:format_independent:cli-stdout", f"`{l}`: csv_summary on stdout is not the table with 3-decimal fractions"))
             if w[1] == "metagenome":
                 # every file against the same writer run in-process (shared object, same writer order) just before
                 for key in ("csv", "krona", "lsum", "human", "kreport", "bioboxes"):
